@@ -107,7 +107,7 @@ static uint64_t job_vf(job *j){
   double tt=ov_time_total(&vf,-1); H(h,&tt,8);
   char buf[4096]; int bs;
   for(long k=0;k<j->n;k++){
-    yieldpt(&y);
+    yieldpt(&y); bs=-1;       /* ov_read leaves *bitstream alone when it delivers nothing */
     switch(lr(&r)%8){
     case 0: case 1: { long g=ov_read(&vf,buf,(int)(1+lr(&r)%4096),0,2,1,&bs); HV(h,g); if(g>0)H(h,buf,g); HV(h,bs); break; }
     case 2: { float **pcm; long g=ov_read_float(&vf,&pcm,(int)(1+lr(&r)%2048),&bs); HV(h,g); if(g>0){ vorbis_info *vi=ov_info(&vf,-1); for(int c=0;c<vi->channels;c++)H(h,pcm[c],g*4); } break; }
@@ -147,6 +147,8 @@ int main(int argc,char **argv){
   for(int k=0;k<njobs;k++){
     jobs[k].kind=k%3; jobs[k].cfg=(int)(lr(&r)%NCFG); jobs[k].sig=(int)(lr(&r)%4); jobs[k].seed=lr(&r);
     jobs[k].n=jobs[k].kind==0?2000+(long)(lr(&r)%(uint64_t)scale):jobs[k].kind==2?20+(long)(lr(&r)%60):0;
+    /* every other encoder job is tiny: lead-in and first block come from freshly allocated buffers */
+    if(jobs[k].kind==0&&(k/3)%2==1){ static const long tiny[]={0,1,16,32,33,64,300}; jobs[k].n=tiny[lr(&r)%7]; }
     jobs[k].in=&streams[jobs[k].cfg];
   }
   int bad=0;
